@@ -150,9 +150,11 @@ def shape(text, wild):
     return ast.unparse(R().visit(tree))
 
 
-def is_literal(e):
+def is_literal(e, names=False):
     if isinstance(e, ast.Constant):
         return True
+    if names and isinstance(e, (ast.Tuple, ast.List)) and e.elts and all(isinstance(x, ast.Name) or (isinstance(x, ast.Attribute) and isinstance(x.value, ast.Name)) for x in e.elts):
+        return True         # a tuple of module-level names (classes for isinstance, functions)
     if isinstance(e, (ast.Tuple, ast.List, ast.Set)):
         return all(is_literal(x) for x in e.elts)
     if isinstance(e, ast.Dict):
@@ -253,6 +255,22 @@ def eliminate_returns(stmts, make_result):
             new = ast.copy_location(ast.If(test=st.test, body=body or [ast.copy_location(ast.Pass(), st)], orelse=orelse), st)
             out.append(new)
             return out, ft
+        rest_ = stmts[i + 1:]
+        tail_only = not rest_ or (len(rest_) == 1 and isinstance(rest_[0], ast.Return) and rest_[0].value is None)
+        if isinstance(st, ast.Try) and contains_return(st) and tail_only and not st.finalbody \
+                and not any(isinstance(x, (ast.For, ast.While, ast.With, ast.Try)) and contains_return(x) for part in [st.body, st.orelse] + [h.body for h in st.handlers] for x in part):
+            # the last statement: each part either returns (assignment) or falls through (result None)
+            def part(body):
+                new, ft = eliminate_returns(body, make_result)
+                if ft:
+                    new = new + make_result(None, st)
+                return new or [ast.copy_location(ast.Pass(), st)]
+            if st.orelse:
+                raise NotInlinable("return in try with else")
+            new_try = ast.copy_location(ast.Try(body=part(st.body), handlers=[ast.copy_location(ast.ExceptHandler(type=h.type, name=h.name, body=part(h.body)), h) for h in st.handlers],
+                                                orelse=[], finalbody=[]), st)
+            out.append(new_try)
+            return out, False
         if contains_return(st):
             raise NotInlinable("return inside a loop / try / with")
         out.append(st)
@@ -320,7 +338,12 @@ class ModuleCanon(object):
         for st in self.tree.body:
             if isinstance(st, ast.Assign) and len(st.targets) == 1 and isinstance(st.targets[0], ast.Name):
                 nm = st.targets[0].id
-                if nm not in top and is_literal(st.value) and stores.get(nm, 0) == 1 and not nm.startswith("__"):
+                if nm not in top and is_literal(st.value, names=True) and stores.get(nm, 0) == 1 and not nm.startswith("__"):
+                    if not is_literal(st.value):
+                        # the referenced names must be bound exactly once at module level, before any function runs
+                        refs = [x.id if isinstance(x, ast.Name) else x.value.id for x in st.value.elts]
+                        if any(stores.get(r, 0) > 1 for r in refs):
+                            continue
                     cands[nm] = st.value
         # never substitute a container that is mutated through a method or a subscript store
         for n in ast.walk(self.tree):
@@ -651,6 +674,10 @@ class ModuleCanon(object):
         for p, a in binding.items():
             if p not in stored and simple_arg(a):
                 mapping[p] = a
+            elif isinstance(a, ast.Name) and a.id not in hlocals - {p} and self._dead_after(fn, st, a.id, q):
+                # the helper works on its own copy of the argument; the caller never reads its variable again before
+                # assigning it, so the copy can be the caller's variable itself
+                rename[p] = a.id
             else:
                 nm = p
                 if nm in caller_names:
@@ -692,6 +719,48 @@ class ModuleCanon(object):
         body = body + [ast.copy_location(ast.Return(value=None), st)]
         new, ft = eliminate_returns(body, make)
         return pre + new
+
+    def _dead_after(self, fn, st, name, q):
+        """On every path from statement `st` the caller's variable `name` is assigned before it is read (or never used)."""
+        from .cfg import CFG
+        try:
+            cfg = CFG(fn, q)
+        except Exception:
+            return False
+        starts = cfg.nodes_of(st)
+        if len(starts) != 1:
+            return False
+        seen = set()
+        stack = [s_ for s_, lab in starts[0].succ if lab != "exc"]
+        while stack:
+            n = stack.pop()
+            if n.id in seen:
+                continue
+            seen.add(n.id)
+            a = n.ast
+            if a is not None and n.kind not in ("with_exit", "dispatch", "join"):
+                probe = a
+                if n.kind == "for":
+                    if any(isinstance(x, ast.Name) and x.id == name for x in ast.walk(a.target)):
+                        continue        # reassigned by the loop header
+                    probe = None
+                elif n.kind in ("with_enter",):
+                    probe = ast.Tuple(elts=[it.context_expr for it in a.items], ctx=ast.Load())
+                elif n.kind == "handler":
+                    probe = None
+                if probe is not None and not isinstance(probe, (ast.FunctionDef, ast.ClassDef)):
+                    loads = any(isinstance(x, ast.Name) and x.id == name and isinstance(x.ctx, ast.Load) for x in ast.walk(probe))
+                    if isinstance(probe, ast.AugAssign) and isinstance(probe.target, ast.Name) and probe.target.id == name:
+                        loads = True
+                    if loads:
+                        return False
+                    if any(isinstance(x, ast.Name) and x.id == name and isinstance(x.ctx, ast.Store) for x in ast.walk(probe)):
+                        continue
+                elif isinstance(probe, (ast.FunctionDef, ast.ClassDef)) and any(isinstance(x, ast.Name) and x.id == name for x in ast.walk(probe)):
+                    return False
+            for s_, lab in n.succ:
+                stack.append(s_)
+        return True
 
     # ------------------------------------------------------------ T: temporaries
     def inline_temps(self):
